@@ -8,6 +8,8 @@ import FpgoVerif.Props.C10
 #print axioms FpgoVerif.C10.C10_once_running
 #print axioms FpgoVerif.C10.C10_unsubscribed_stays_out
 #print axioms FpgoVerif.C10.C10_map_partial
+#print axioms FpgoVerif.C10.C10_map_compose
+#print axioms FpgoVerif.C10.C10_witness_map
 #print axioms FpgoVerif.C10.C10_handler
 #print axioms FpgoVerif.C10.C10_prefix_in_place_compaction_refuted
 #print axioms FpgoVerif.C10.C10_prefix_not_once
